@@ -22,24 +22,24 @@ fn ideal_from_key(key: &str) -> ApiKeyHash {
     ApiKeyHash(h)
 }
 
-/// A key of 0 or 1 symbolic lowercase ASCII bytes: covers "equal", "different", "empty".
+/// A key of 0..2 symbolic lowercase ASCII bytes: covers "equal", "different", "empty", "prefix of".
 struct Key {
-    buf: [u8; 1],
+    buf: [u8; 2],
     len: usize,
 }
 impl Key {
     fn any() -> Self {
-        let c: u8 = kani::any();
-        kani::assume(c >= b'a' && c <= b'd');
+        let (c0, c1): (u8, u8) = (kani::any(), kani::any());
+        kani::assume(c0 >= b'a' && c0 <= b'c' && c1 >= b'a' && c1 <= b'c');
         let len: usize = kani::any();
-        kani::assume(len <= 1);
-        Key { buf: [c], len }
+        kani::assume(len <= 2);
+        Key { buf: [c0, c1], len }
     }
     fn s(&self) -> &str {
         unsafe { std::str::from_utf8_unchecked(&self.buf[..self.len]) }
     }
     fn same(&self, o: &Key) -> bool {
-        self.len == o.len && (self.len == 0 || self.buf[0] == o.buf[0])
+        self.len == o.len && (self.len < 1 || self.buf[0] == o.buf[0]) && (self.len < 2 || self.buf[1] == o.buf[1])
     }
 }
 
@@ -49,7 +49,7 @@ fn err_sig(e: &ApiError) -> (u16, usize, usize) {
 
 // @check id=C14 tier=quick cap=600 role=authorize_truth_table
 // @fns auth::authorize, auth::ApiKeyHash::verify, api::constant_time_eq
-// @bound admin/bound/presented each optional; keys are strings of 0..1 symbolic bytes in a..d (equal, different, empty all occur); scope in {Root, Database}
+// @bound admin/bound/presented each optional; keys are strings of 0..2 symbolic bytes in a..c (equal, different, empty, strict prefix all occur); scope in {Root, Database}
 // @stubs ApiKeyHash::from_key -> injective ideal hash (len, b0, b1)
 // @assume SHA3-256 is collision free on the key pool (ideal hash)
 #[kani::proof]
@@ -101,6 +101,7 @@ fn c14_authorize_truth_table() {
     kani::cover!(has_admin && matches!(r, Ok(Principal::Admin)), "admin by key");
     kani::cover!(r.is_err() && !root && has_bound && has_pres, "wrong key for a bound database");
     kani::cover!(r.is_err() && root && has_bound && has_pres && kp.same(&kb), "bound key presented at root");
+    kani::cover!(r.is_err() && has_admin && has_pres && !has_bound && kp.len == 1 && ka.len == 2 && kp.buf[0] == ka.buf[0], "a strict prefix of the admin key is rejected");
     std::mem::forget(r);
 }
 
@@ -108,7 +109,7 @@ fn c14_authorize_truth_table() {
 // response whether the database is bound to another key, unbound / missing, or no token is sent.
 // @check id=C14 tier=quick cap=600 role=uniform_rejection
 // @fns auth::authorize, auth::ApiKeyHash::verify, api::constant_time_eq, error::ApiError::unauthorized
-// @bound two runs that differ only in the `bound` argument (None / Some(any 0..1-byte key)); same admin, presented, scope
+// @bound two runs that differ only in the `bound` argument (None / Some(any 0..2-byte key)); same admin, presented, scope
 // @stubs ApiKeyHash::from_key -> injective ideal hash (len, b0, b1)
 #[kani::proof]
 #[kani::unwind(34)]
